@@ -187,7 +187,23 @@ MAX_ITER = 400
 
 _BUILTINS = {"range": range, "int": int, "str": str, "len": len, "bool": bool, "abs": abs, "divmod": divmod, "min": min, "max": max, "round": round,
              "float": float, "any": any, "all": all, "sum": sum, "sorted": sorted, "tuple": tuple, "list": list, "enumerate": lambda *a, **k: list(enumerate(*a, **k)),
-             "callable": callable, "zip": lambda *a: list(zip(*a)), "reversed": lambda x: list(reversed(x)), "set": set, "frozenset": frozenset, "repr": repr, "pow": pow, "chr": chr, "ord": ord}
+             "callable": callable, "zip": lambda *a: list(zip(*a)), "reversed": lambda x: list(reversed(x)), "set": set, "frozenset": frozenset, "repr": repr, "pow": pow, "chr": chr, "ord": ord,
+             "next": lambda it, *d: _next(it, *d), "iter": lambda x: list(x), "dict": dict, "isinstance_": None, "type_": None, "map": lambda f, *a: list(map(f, *a)),
+             "filter": lambda f, a: [x for x in a if (f(x) if f is not None else x)]}
+_BUILTINS = {k: v for k, v in _BUILTINS.items() if v is not None}
+
+
+def _next(it, *default):
+    """next() of an iterator: generator expressions and iter() are evaluated eagerly into lists, so it is the first element"""
+    if isinstance(it, list):
+        if it:
+            return it.pop(0)            # consumed, like the iterator it stands for
+        if default:
+            return default[0]
+        raise Raised("raise reached: StopIteration", "StopIteration")
+    raise Unsupported("next() of a value that is not an evaluated generator")
+
+
 _BUILTIN_VALUES = {"tuple": tuple, "list": list, "dict": dict, "set": set, "frozenset": frozenset, "str": str, "int": int, "float": float, "bool": bool, "bytes": bytes,
                    "ValueError": ValueError, "TypeError": TypeError, "KeyError": KeyError, "IndexError": IndexError, "NotImplemented": NotImplemented}
 _STR_METHODS = {"startswith", "endswith", "split", "replace", "zfill", "ljust", "rjust", "strip", "lstrip", "rstrip", "upper", "lower",
@@ -209,6 +225,11 @@ def ev(n: ast.AST, env: dict[str, Any], funcs: dict[str, ast.FunctionDef] | None
             return g[n.id]
         if n.id in _BUILTIN_VALUES:
             return _BUILTIN_VALUES[n.id]
+        fdef = funcs.get(n.id) if funcs else None
+        if isinstance(fdef, (ast.FunctionDef, tuple)):
+            # a function of the analysed module used as a value (an entry of a table, an argument): calling it interprets it
+            fnode, ffuncs = (fdef, funcs) if isinstance(fdef, ast.FunctionDef) else fdef
+            return lambda *a, **k: call(fnode, list(a), k, ffuncs, depth + 1)
         raise Unsupported(f"free name `{n.id}`")
     if t is ast.Attribute:
         v = ev(n.value, env, funcs, depth)
@@ -651,6 +672,19 @@ def call(fn: ast.FunctionDef, args: list[Any], kws: dict[str, Any] | None = None
     except _Return as r:
         return env.get("$yielded", []) if is_gen else r.value
     return env.get("$yielded", []) if is_gen else None
+
+
+def module_tables(m, glob: dict[str, Any], funcs: dict[str, Any]) -> None:
+    """adds to `glob` the module-level names of `m` that are not there yet and whose value the interpreter can evaluate in `glob`
+    (tables of the analysed module that a function consults: tuples / dicts of constants, classes of the world and functions of the module)"""
+    for top in m.tree.body:
+        if isinstance(top, (ast.Assign, ast.AnnAssign)):
+            tg = top.targets[0] if isinstance(top, ast.Assign) and len(top.targets) == 1 else getattr(top, "target", None)
+            if isinstance(tg, ast.Name) and getattr(top, "value", None) is not None and tg.id not in glob:
+                try:
+                    glob[tg.id] = ev(top.value, {}, {**funcs, "$globals": glob})
+                except Exception:       # noqa: BLE001 - a name that cannot be evaluated stays free: using it is Unsupported
+                    pass
 
 
 def module_consts(m) -> dict[str, Any]:
